@@ -11,3 +11,4 @@ import BobModel.Props.C17
 import BobModel.Props.C20
 import BobModel.Props.C08
 import BobModel.Props.C16
+import BobModel.Props.C19
